@@ -386,10 +386,16 @@ class SymReal:
         return _mk(z3.simplify(zo / self.z))
 
     def __pow__(self, o):
-        if isinstance(o, int) and not isinstance(o, bool) and 0 <= o <= 8:
+        if _np is not None and isinstance(o, _np.integer):
+            o = int(o)
+        if isinstance(o, int) and not isinstance(o, bool) and -8 <= o <= 8:
             r = 1
-            for _ in range(o):
+            for _ in range(abs(o)):
                 r = r * self
+            if o < 0:
+                if self == 0:
+                    return float('inf')
+                return 1 / r
             return r
         raise Unmodelled(f"pow of symbolic real with exponent {o!r}")
 
